@@ -261,7 +261,7 @@ func asmOpSource(name string) string {
 	case name == "LDA_imm16_w($1234)":
 		return "e.LDA_imm16_w(0x1234)"
 	case strings.HasPrefix(name, "EmitBytes("):
-		return "e.EmitBytes(data(" + name[len("EmitBytes(") : len(name)-1] + "))"
+		return "e.EmitBytes(data(" + name[len("EmitBytes("):len(name)-1] + "))"
 	case strings.HasPrefix(name, "Comment("):
 		var n int
 		fmt.Sscanf(name, "Comment(%d chars)", &n)
